@@ -22,7 +22,7 @@ RULE = ("one run = one physical storage layout (1..many batches, sizes >= 0), a 
         "phantom batch or a boundary number) involved; distinct = distinct event-log digest")
 ASSUMPTIONS = [
     "Dominion sample numbers are 1-based (1..bound), Hart 0-based (0..bound-1), as the two lookups document",
-    "batch labels (tabulator, batch) are unique; a sample lists each number once (the lookup tables are keyed by card identifier)",
+    "batch labels (tabulator, batch) are unique, for Hart batch names alone are unique; a sample lists each number once (the lookup tables are keyed by card identifier)",
 ]
 COMPONENTS = {
     "real": ["Dominion.prep_manifest", "Hart.prep_manifest", "Dominion.sample_from_manifest", "Hart.sample_from_manifest",
@@ -43,7 +43,8 @@ def generate(rng, tier):
     if sum(sizes) == 0:
         sizes[rng.randrange(nb)] = rng.randint(1, 5)
     tab = rng.randint(1, 50)
-    batches = [{"tab": str(tab + i // 3), "batch": str(100 + i), "n": s} for i, s in enumerate(sizes)]
+    names = rng.sample(range(1, 9), nb) if nb <= 8 and rng.chance(0.5) else [100 + i for i in range(nb)]
+    batches = [{"tab": str(tab + i // 3), "batch": str(names[i]), "n": s} for i, s in enumerate(sizes)]
     total = sum(sizes)
     rel = rng.wpick([("equal", 3), ("larger", 4), ("smaller", 1)])
     bound = total if rel == "equal" else (total + rng.randint(1, 6) if rel == "larger" else total - rng.randint(1, total))
@@ -71,17 +72,23 @@ def generate(rng, tier):
     n_ph = max(0, bound - total)
     n_list = total + n_ph  # the CVR list a comparison audit samples from: one CVR per card, then phantom CVRs
     return {"vendor": vendor, "batches": batches, "bound": bound, "n_cvrs": n_cvrs, "sample": sample, "prelude": prelude,
+            # the spreadsheet's row labels need not be 0..n-1 in row order (sorted, filtered or concatenated sheets)
+            "index": rng.pick([None, None, rng.perm(nb), [10 * (i + 1) for i in range(nb)]]),
             "reprep": rng.pick([None, None, "same", "larger", "smaller"]),
             "cvr_sample": rng.sample(range(n_list), rng.randint(0, min(n_list, 12))) if n_list else []}
 
 
 def raw_manifest(case):
     if case["vendor"] == "dominion":
-        return pd.DataFrame([{"Tray #": i + 1, "Tabulator Number": int(b["tab"]), "Batch Number": int(b["batch"]),
-                              "Total Ballots": int(b["n"]), "VBMCart.Cart number": 1 + i // 2}
-                             for i, b in enumerate(case["batches"])])
-    return pd.DataFrame([{"Container": f"box{1 + i // 2}", "Tabulator": int(b["tab"]), "Batch Name": int(b["batch"]),
-                          "Number of Ballots": int(b["n"])} for i, b in enumerate(case["batches"])])
+        df = pd.DataFrame([{"Tray #": i + 1, "Tabulator Number": int(b["tab"]), "Batch Number": int(b["batch"]),
+                            "Total Ballots": int(b["n"]), "VBMCart.Cart number": 1 + i // 2}
+                           for i, b in enumerate(case["batches"])])
+    else:
+        df = pd.DataFrame([{"Container": f"box{1 + i // 2}", "Tabulator": int(b["tab"]), "Batch Name": int(b["batch"]),
+                            "Number of Ballots": int(b["n"])} for i, b in enumerate(case["batches"])])
+    if case.get("index") is not None and len(case["index"]) == len(df):
+        df.index = list(case["index"])
+    return df
 
 
 def execute(case):
@@ -217,6 +224,16 @@ def execute(case):
                             f"sample number {s} designates card {cid} (batch sizes {exp_sizes}); the retrieval list has "
                             f"{sorted(by_id)[:6]}...")
                 return out
+            row = by_id[cid]
+            if vendor == "dominion":
+                exp_row = ([str(1 + bi // 2), str(bi + 1)] if labels[bi][0] != "phantom" else None)
+                got_row = [str(row[0]), str(row[1]), str(row[2]), str(row[3]), int(row[4])]
+                want = (exp_row or got_row[:2]) + [str(tab), str(batch), pos]
+            else:
+                got_row = [str(row[0]), str(row[1]), str(row[2]), int(row[3])]
+                want = [(f"box{1 + bi // 2}" if labels[bi][0] != "phantom" else got_row[0]), str(tab), str(batch), pos]
+            if got_row != want:
+                out.violate("C17.a", f"{vendor}/retrieval-row", f"card {cid}: the retrieval list says {got_row}, storage says {want}")
             if order.get(cid, {}).get("selection_order") != i:
                 out.violate("C17.b", f"{vendor}/selection-order",
                             f"card {cid} was drawn {i}-th but its recorded selection order is {order.get(cid)}")
@@ -256,6 +273,21 @@ def execute(case):
                 break
         if sorted(c[5 if vendor == 'dominion' else (3 if len(c) == 4 else 4)] for c in cards2) != sorted(cvrs[i].id for i in cs):
             out.violate("C17.d", f"{vendor}/ids", "identifiers on the retrieval list do not match the sampled CVRs")
+        tab_of = {}
+        for bi, b in enumerate(batches):
+            tab_of[(b["tab"], b["batch"]) if vendor == "dominion" else b["batch"]] = (b["tab"], bi)
+        for c2 in cards2:
+            try:
+                if vendor == "dominion" and str(c2[2]) != "phantom" and not str(c2[5]).startswith("phantom"):
+                    t_, bi = tab_of[(str(c2[2]), str(c2[3]))]
+                    if [str(c2[0]), str(c2[1])] != [str(1 + bi // 2), str(bi + 1)]:
+                        out.violate("C17.d", "dominion/retrieval-row", f"card {c2[5]}: cart/tray {c2[:2]}, the manifest says {[1 + bi // 2, bi + 1]}")
+                if vendor == "hart" and len(c2) == 4:
+                    t_, bi = tab_of[str(c2[1])]
+                    if str(c2[0]) != str(t_):
+                        out.violate("C17.d", "hart/retrieval-row", f"card {c2[3]}: tabulator {c2[0]!r}, the manifest says {t_!r}")
+            except Exception as e:
+                out.violate("C17.d", f"{vendor}/retrieval-row-malformed", f"retrieval row {list(c2)} cannot be matched to the manifest: {e!r}")
         want_ph = sorted(cvrs[i].id for i in cs if cvrs[i].phantom)
         if want_ph:
             out.probe("phantom CVR in CVR-driven lookup")
